@@ -354,16 +354,20 @@ def tx_bit_case(rng, case, out):
 	sig_at, key_at = signature_offsets(case['net'])
 	data[sig_at:sig_at + 64] = bytes.fromhex(out['signature'])
 	data[key_at:key_at + 32] = bytes.fromhex(out['public'])
-	region = rng.choice(['head', 'body', 'tail', 'any'])
+	# Flipped bits are confined to fixed-width fields and trailing data bytes: a flipped high bit in a 32-bit count / byte-size member
+	# (aggregate payload_size, NEM mosaics_count ...) makes the SDK deserializer build millions of empty elements from the exhausted
+	# buffer (tens of GB) instead of rejecting -- a decoding matter (C01/C02), not a signing one, and it would kill the run.
 	size = len(data)
-	if region == 'head':
-		bit = rng.randrange(8 * min(size, 120))
-	elif region == 'tail':
-		bit = 8 * size - 1 - rng.randrange(min(8 * size, 8 * 100))
-	elif region == 'body':
-		bit = rng.randrange(8 * min(size, 108), 8 * size)
-	else:
-		bit = rng.randrange(8 * size)
+	regions = [(0, min(size, 128))]
+	if case['net'] == 'sym':
+		if int.from_bytes(data[110:112], 'little') in SYM_AGGREGATE_TYPES and size >= 160:
+			regions.append((128, 160))
+		if size >= 172 + 8:
+			regions.append((max(size - 48, 172), size))
+	elif case['tx_kind'] in ('multisig+cosignatures', 'cosignature') and size >= 128 + 40:
+		regions.append((size - 32, size))
+	low, high = rng.choice(regions)
+	bit = rng.randrange(8 * low, 8 * high)
 	return {'signed_tx': bytes(data).hex(), 'bit': bit, 'original_payload': out['payload']}
 
 
@@ -543,6 +547,10 @@ def signature_of(case):
 
 
 def run(check, unrecognised):
+	import resource
+	soft, hard = resource.getrlimit(resource.RLIMIT_AS)
+	limit = 12 * 2 ** 30
+	resource.setrlimit(resource.RLIMIT_AS, (limit if hard == resource.RLIM_INFINITY else min(limit, hard), hard))   # safety net, see tx_bit_case
 	check.trusted += [
 		'translator harness/gen.py (KeyPairOps, PayloadOps: constants / operators of the anchors listed in harness/gens/c07.py; hole-less anchors are pinned verbatim)',
 		'cryptography 38.0.4 / OpenSSL Ed25519 (the Symbol KeyPair/Verifier delegate to it; also the SHA-512 reference of the oracle)',
